@@ -270,6 +270,14 @@ def gen_ops(seed_parts, world, profile, max_steps):
     if "replace_file" in enabled and ops:
         party = frng.choice(W.parties(world))
         extra.append((frng.randrange(len(ops)), {"op": "replace_file", "file": party["name"], "delta": frng.choice([333.0, 77.0])}))
+    # calls of the dataset's other public accessors between the requests (own PRNG stream: nothing else moves)
+    arng = prng.stream(*seed_parts, "aux")
+    if ops and arng.random() < profile.get("p_aux", 0.3):
+        from .engine_data import AUX_CALLS
+        for _ in range(arng.randint(1, 3)):
+            extra.append((arng.randrange(len(ops) + 1),
+                          {"op": "aux", "call": arng.choice(AUX_CALLS), "axis": gen_axis(arng, profile),
+                           "input": arng.randrange(info["n_inputs"]), "ds": arng.randrange(n_datasets)}))
     if "rng" in enabled:
         for _ in range(frng.randint(1, 2)):
             extra.append((frng.randrange(len(ops) + 1), {"op": "rng", "seed": frng.randrange(2 ** 31),
